@@ -656,6 +656,14 @@ impl<'a, Input: InputIndexer> MatchAttempter<'a, Input> {
                     };
                 }
 
+                #[cfg(feature = "verif-hooks")]
+                {
+                    crate::verif::note_stack(self.bts.len());
+                    if crate::verif::tick() {
+                        self.bts.truncate(1);
+                        return None;
+                    }
+                }
                 match re.insns.iat(ip) {
                     &Insn::Char(c) => {
                         let m = match <<Input as InputIndexer>::Element as ElementType>::try_from(c)
@@ -980,6 +988,11 @@ impl<'a, Input: InputIndexer> MatchAttempter<'a, Input> {
 
             // This after the backtrack loop.
             // A break 'backtrack will jump here.
+            #[cfg(feature = "verif-hooks")]
+            if crate::verif::tick() {
+                self.bts.truncate(1);
+                return None;
+            }
             if self.try_backtrack(input, &mut ip, &mut pos, dir) {
                 continue 'nextinsn;
             } else {
